@@ -185,6 +185,8 @@ impl PairTable {
         &&& 4 * self.num_items <= 3 * self.slots@.len()
     }
 
+    #[verifier::loop_isolation(false)]
+    #[verifier::allow_complex_invariants]
     fn lookup(&self, item: u32) -> (r: u32)
       requires pshape(self.slots@, self.num_valid_bits, self.lg_size), pocc(self.slots@).len() < self.slots@.len(), (item as int) < pow2(self.num_valid_bits as nat), item != EMPTY
       ensures r < self.slots@.len(), self.slots@[r as int] == item || self.slots@[r as int] == EMPTY,
@@ -218,7 +220,7 @@ impl PairTable {
             0 <= j < sz,
           invariant
             pshape(ss, nvb, lg), pocc(ss).len() < ss.len(), ss == self.slots@, nvb == self.num_valid_bits, lg == self.lg_size, sz == pow2(lg as nat), sz == ss.len(), sz <= 0x400_0000,
-            size == sz, mask == sz - 1, mask == ((1u32 << lg) - 1) as u32, item != EMPTY,
+            mask == sz - 1, mask == ((1u32 << lg) - 1) as u32, item != EMPTY,
             p0 == phome(item, nvb, lg), 0 <= p0 < sz,
             probe == probe_at(p0, 1, j, sz), 0 <= probe < sz, 0 <= j < sz,
             forall|p: int| visited.contains(p) <==> exists|i: int| 0 <= i < j && p == probe_at(p0, 1, i, sz),
